@@ -551,6 +551,48 @@ def t_mutvec(ctx):
     ctx.hyp(s_mutvec(), ctx.n(1500, 25000))
 
 
+def fuzz_decode(data):
+    """bytes -> eval/verify case: [flags][mode][nstack][stack items...][script]"""
+    d = data + bytes(4)
+    fl = [f for i, f in enumerate(I.ALL_FLAGS) if d[0] >> i & 1]
+    if 'CLEANSTACK' in fl and 'P2SH' not in fl:
+        fl.append('P2SH')
+    mode = d[1] % 4
+    body = data[3:]
+    if mode == 0:
+        n = d[2] % 4
+        stack = []
+        for _ in range(n):
+            if not body:
+                break
+            k = body[0] % 6
+            stack.append(body[1:1 + k].hex())
+            body = body[1 + k:]
+        return {'kind': 'eval', 'script': body[:2000].hex(), 'stack': stack, 'flags': [f for f in fl if f in ('NULLDUMMY', 'DISCOURAGE_UPGRADABLE_NOPS')]}
+    n = d[2] % 64
+    a, b = body[:n], body[n:2000]
+    if mode == 2:       # P2SH-shaped with b as redeem script
+        return {'kind': 'verify', 'ssig': (a + S.push_enc(b[:520])).hex(), 'spk': (b'\xa9\x14' + H.h160(b[:520]) + b'\x87').hex(), 'flags': fl}
+    if mode == 3:
+        b = (b * 30)[:10001]
+    return {'kind': 'verify', 'ssig': a.hex(), 'spk': b.hex(), 'flags': fl}
+
+
+def fuzz_seeds():
+    out = [b'', bytes(4)]
+    for i, (a, b) in enumerate(vectors()[::4]):
+        if len(a) < 64:
+            out.append(bytes([i % 16, 1, len(a)]) + a + b)
+    for k in range(0, len(TOKENS), 7):
+        out.append(bytes([0, 0, 2, 1, 1, 1, 2]) + TOKENS[k] + TOKENS[(k * 3 + 1) % len(TOKENS)])
+    return out
+
+
+def t_fuzz(ctx):
+    from .. import fuzzdrv
+    fuzzdrv.campaign(ctx, 'c06', fuzz_seeds(), runs=ctx.n(8000, 0), seconds=ctx.n(0, 420), max_len=2100, label='differential-fuzz')
+
+
 NEED_OPS = [op for op in range(0x4f, 0xba) if op not in I.DISABLED and op not in (0x50, 0x62, 0x65, 0x66, 0x89, 0x8a)]
 
 
@@ -564,4 +606,4 @@ def coverage_gaps(classes, tier):
 
 
 TASKS = [('exhaustive', (t_exhaustive, 16)), ('limits', (t_limits, 8)), ('grammar', (t_grammar, 12)), ('signed', (t_signed, 16)),
-         ('mutvec', (t_mutvec, 8))]
+         ('mutvec', (t_mutvec, 8)), ('fuzz', (t_fuzz, lambda tier: 2 if tier == 'quick' else 8))]
